@@ -45,6 +45,10 @@ def doc_features(doc):
     for l in doc:
         if l and l[0] != '#' and '#' in l[1:]:
             f.add('trailing-comment')
+        # a .names operand that merely CONTAINS "unconn" (rx_unconnected, __vpr__unconn3): the reader's parse_name
+        # tests `"unconn" in name`, so the net is dropped as if it were the literal placeholder `unconn`
+        if l and l[0] == '.names' and any('unconn' in t and t != 'unconn' for t in l[1:]):
+            f.add('names-unconn-substring')
     instanced = set()
     models = split_models(doc)
     for name, lines in models:
